@@ -652,3 +652,53 @@ def repeated_well_cases(seed):
                 p, t = (op['odst'], op['odst']) if same else (op['osrc'], op['odst'])
         out.append(g)
     return out
+
+
+def twin_lot_cases(seed, kind='transfer'):
+    """directed: two lots of one enzyme -- same name, different specific activity (dsl.TWIN_LOT); the library's Substance equality
+    does not see the difference, so they are kept in separate containers -- put through the same operations one after the other:
+    whatever is remembered from the first lot must not be used for the second"""
+    import random
+    q = lambda v, p, b: {'v': v, 'p': p, 'b': b}
+    out = []
+    lots = (6, 10)       # lipase 7000 U/g and its second lot 25000 U/g
+    subs = [s for s in LIBRARY if s['id'] in (1, 4, 6)] + [dsl.TWIN_LOT]
+    for order in (lots, lots[::-1]):
+        g = Gen(random.Random(seed * 4001 + order[0]), nsubs=3)
+        g.subs = sorted(subs, key=lambda s: s['id'])
+        g.impl = dsl.Impl(g.subs)
+        vials, stocks = {}, {}
+        for lot in order:
+            op = {'op': 'newc', 'out': g.fresh(), 'name': g.name(), 'init': [[lot, q('1000', '', 'U')]]}
+            vials[lot] = op['out'] if g.emit(op, 'lot:vial')['ok'] else None
+            op = {'op': 'newc', 'out': g.fresh(), 'name': g.name(), 'init': [[1, q('5', 'm', 'L')], [4, q('100', 'm', 'g')], [lot, q('700', '', 'U')]]}
+            stocks[lot] = op['out'] if g.emit(op, 'lot:stock')['ok'] else None
+        if None in list(vials.values()) + list(stocks.values()):
+            continue
+        for lot in order:
+            if kind == 'transfer':
+                # 35 mg of pure enzyme: lot 6 holds 142.9 mg, lot 10 holds 40 mg; then 100 mg: feasible for lot 6 only
+                for amount in ('35', '100'):
+                    d = g.fresh()
+                    g.emit({'op': 'newc', 'out': d, 'name': g.name(), 'init': []}, 'lot:tube')
+                    op = {'op': 'transfer', 'src': {'c': vials[lot]}, 'dst': {'c': d}, 'q': q(amount, 'm', 'g'), 'osrc': g.fresh(), 'odst': g.fresh()}
+                    if g.emit(op, 'lot:draw-mass')['ok']:
+                        vials[lot] = op['osrc']
+                d = g.fresh()
+                g.emit({'op': 'newc', 'out': d, 'name': g.name(), 'init': []}, 'lot:tube')
+                op = {'op': 'transfer', 'src': {'c': stocks[lot]}, 'dst': {'c': d}, 'q': q('0.5', '', 'g'), 'osrc': g.fresh(), 'odst': g.fresh()}
+                if g.emit(op, 'lot:stock-mass')['ok']:
+                    stocks[lot] = op['osrc']
+            elif kind == 'fill':
+                op = {'op': 'fill', 't': {'c': stocks[lot]}, 'solvent': 1, 'q': q('10', '', 'g'), 'out': g.fresh()}
+                if g.emit(op, 'lot:fill-mass')['ok']:
+                    stocks[lot] = op['out']
+                op = {'op': 'dilute', 'v': stocks[lot], 'solute': 4, 'c': {'v': '5', 'np': 'm', 'nb': 'g', 'dp': '', 'db': 'g'}, 'solvent': 1, 'out': g.fresh()}
+                g.emit(op, 'lot:dilute-mass')
+            elif kind == 'solfrom':
+                op = {'op': 'solfrom', 'src': stocks[lot], 'solute': 4, 'c': {'v': '10', 'np': 'm', 'nb': 'g', 'dp': '', 'db': 'g'}, 'q': q('2', '', 'g'),
+                      'name': g.name(), 'osrc': g.fresh(), 'out': g.fresh(), 'solvent': 1, 'expect': 'feasible'}
+                if g.emit(op, 'lot:solfrom-mass')['ok']:
+                    stocks[lot] = op['osrc']
+        out.append(g)
+    return out
